@@ -71,3 +71,11 @@ Example C11_hyps_wf : wf_holes Standard ex_holes.
 Proof. exact ex_holes_wf. Qed.
 Example C11_hyps_monotone : 0 < 2 /\ 0 < 1 /\ 1 * 1 <= 1 * 2.
 Proof. repeat split; reflexivity || discriminate. Qed.
+
+(* ===== the binary32 translation of a pot fraction is the exact floor (Flocq) ===== *)
+From RP Require Model.BetF32 Proofs.C11_BetF32.
+Theorem C11_bet_f32_is_floor : forall pot num den,
+  (0 <= pot <= GenLib.N_PLAYERS * GenLib.STACK)%Z -> In (num, den) BetF32.all_odds ->
+  BetF32.bet_f32 pot num den = Game.bet_of_odds pot num den.
+Proof. exact C11_BetF32.bet_is_floor. Qed.
+Print Assumptions C11_bet_f32_is_floor.
